@@ -935,7 +935,7 @@ class CouplingModel(Model):
             if plus_hc:
                 plus_hc = False  # explicitly add the h.c. later; don't do it here.
             else:
-                strength /= 2  # avoid double-counting this term: add the h.c. explicitly later on
+                strength = strength / 2  # avoid double-counting this term: add the h.c. explicitly later on
         # convert lattice to MPS index
         term = [(op, self.lat.lat2mps_idx(idx)) for op, idx in term]
         if category is None:
@@ -1006,7 +1006,7 @@ class CouplingModel(Model):
             if plus_hc:
                 plus_hc = False  # explicitly add the h.c. later; don't do it here.
             else:
-                strength /= 2  # avoid double-counting this term: add the h.c. explicitly later on
+                strength = strength / 2  # avoid double-counting this term: add the h.c. explicitly later on
         if not self.lat.unit_cell[u].valid_opname(opname):
             raise ValueError(f'unknown onsite operator {opname!r} for u={u:d}\n{self.lat.unit_cell[u]!r}')
         if self.lat.unit_cell[u].op_needs_JW(opname):
@@ -1044,7 +1044,7 @@ class CouplingModel(Model):
             if plus_hc:
                 plus_hc = False  # explicitly add the h.c. later; don't do it here.
             else:
-                strength /= 2  # avoid double-counting this term: add the h.c. explicitly later on
+                strength = strength / 2  # avoid double-counting this term: add the h.c. explicitly later on
         if category is None:
             category = op
         ot = self.onsite_terms.setdefault(category, OnsiteTerms(self.lat.N_sites))
@@ -1275,7 +1275,7 @@ class CouplingModel(Model):
             if plus_hc:
                 plus_hc = False  # explicitly add the h.c. later; don't do it here.
             else:
-                strength /= 2  # avoid double-counting this term: add the h.c. explicitly later on
+                strength = strength / 2  # avoid double-counting this term: add the h.c. explicitly later on
         if category is None:
             category = f'{op_i}_i {op_j}_j'
         ct = self.coupling_terms.setdefault(category, CouplingTerms(self.lat.N_sites))
@@ -1478,7 +1478,7 @@ class CouplingModel(Model):
             if plus_hc:
                 plus_hc = False  # explicitly add the h.c. later; don't do it here.
             else:
-                strength /= 2  # avoid double-counting this term: add the h.c. explicitly later on
+                strength = strength / 2  # avoid double-counting this term: add the h.c. explicitly later on
         if category is None:
             category = ' '.join(['{op}_{i}'.format(op=op, i=chr(ord('i') + m)) for m, op in enumerate(ops_ijkl)])
         ct = self.coupling_terms.get(category, None)
@@ -1618,7 +1618,7 @@ class CouplingModel(Model):
             if plus_hc:
                 plus_hc = False  # explicitly add the h.c. later; don't do it here.
             else:
-                strength /= 2  # avoid double-counting this term: add the h.c. explicitly later on
+                strength = strength / 2  # avoid double-counting this term: add the h.c. explicitly later on
 
         if subsites is None:
             example_site_j = self.lat.unit_cell[0]
@@ -1723,7 +1723,7 @@ class CouplingModel(Model):
             if plus_hc:
                 plus_hc = False  # explicitly add the h.c. later; don't do it here.
             else:
-                strength /= 2  # avoid double-counting this term: add the h.c. explicitly later on
+                strength = strength / 2  # avoid double-counting this term: add the h.c. explicitly later on
 
         if self.lat.bc_MPS != 'finite':
             raise ValueError('Single exponentially decaying term requires a finite system.')
